@@ -139,6 +139,11 @@ impl Scenario for C14 {
         }
         // third token: refuses transfers to one address; a payout to it must fail as a whole
         v.push(Act::Pay { token: 2, spender: 0, amt: Amt::One, auth: true });
+        // that token does not look at the sign of an amount: the service's own rule must stop these
+        for amt in [Amt::Neg, Amt::Zero] {
+            v.push(Act::Pay { token: 2, spender: 0, amt, auth: true });
+            v.push(Act::Add { token: 2, spender: 0, amt, auth: true });
+        }
         for receiver in [0u8, 2] {
             v.push(Act::Collect { token: 2, amt: Amt::One, by: 3, receiver });
             v.push(Act::Refund { token: 2, amt: Amt::One, by: 3, receiver });
@@ -367,7 +372,7 @@ fn main() {
         let thorough = tier == "thorough";
         let mut o = Opts::new(tier, if thorough { 10 } else { 4 });
         o.min_depth = 3;
-        o.rule = "three configurations (owner and collector distinct / the same address at deployment / the service already holding i128::MAX - 5 of two tokens); all sequences over ownership transfer to the stranger, pay_gas / add_gas (2 tokens: stellar asset contract and native interchain token; spenders U1, U2; amounts -1, 0, 1, balance, balance+1; authorised by the spender or by someone else; also naming the gas service itself as payer) and collect_fees / refund (also for the empty message id; amounts -1, 0, 1, held, held+1; by collector, owner, stranger (who may have become the owner), and on the collector's authorisation for another amount; to a receiver, to the collector itself, to the gas service itself, and to an address that a third token refuses); after every new state all balances of both tokens and the equation held == paid + added - collected - refunded are compared with the model".into();
+        o.rule = "three configurations (owner and collector distinct / the same address at deployment / the service already holding i128::MAX - 5 of two tokens); all sequences over ownership transfer to the stranger, pay_gas / add_gas (2 tokens: stellar asset contract and native interchain token; spenders U1, U2; amounts -1, 0, 1, balance, balance+1; authorised by the spender or by someone else; also naming the gas service itself as payer) and collect_fees / refund (also for the empty message id; amounts -1, 0, 1, held, held+1; by collector, owner, stranger (who may have become the owner), and on the collector's authorisation for another amount; to a receiver, to the collector itself, to the gas service itself, and to an address that a third token refuses; that third token ignores the sign of amounts, and negative / zero payments in it must be refused by the service itself); after every new state all balances of both tokens and the equation held == paid + added - collected - refunded are compared with the model".into();
         (C14 { thorough }, o)
     });
 }
